@@ -35,6 +35,11 @@ func (prop) Rule() string {
 	return "each sequence is 10-14 generated persistent updates (message-board posts; news bundle/category creation, article post/reply/delete, item delete; account create, modify, rename, delete; temporary and permanent bans) executed by a child process that calls the real stores from its main goroutine locked to the main OS thread and prints BEGIN i / ACK i around each update. A reference run under strace (main thread only) yields the ordered list of file system calls (openat, write, close, rename*, unlink*, ftruncate, fsync, link*, mkdir*); then FOR EVERY call j after the first BEGIN the same sequence is re-run on a fresh copy of the directory with SIGKILL injected on entry to call j (exhaustive per sequence). A fresh process then loads the directory with the real constructors; every store must load and the state must equal the reference model after m updates (m = ACKs seen) or, only if BEGIN m+1 was printed, after m+1. distinct = (store and update kind in flight, system call killed); non-trivial = the kill landed between BEGIN and ACK of an update"
 }
 
+// Exhaustive: every traced system call of every generated sequence is a crash point.
+func (prop) Exhaustive() string {
+	return "per generated update sequence: every traced file system call boundary after the first BEGIN is killed once (the space of sequences itself is sampled from the seed)"
+}
+
 type seqArgs struct {
 	Seq int `json:"seq"`
 }
